@@ -74,7 +74,7 @@ func genMixedRequest(r *core.Rand, id int, limit int, allowFaults bool) ReqSpec 
 		if sp.Proto == "ws" && size > 300 {
 			size = 300
 		}
-		sp.Msgs = append(sp.Msgs, MsgSpec{Size: size, Seed: r.U64() >> 8, Plain: sp.Compress && sp.Proto != "http" && r.Chance(1, 4)})
+		sp.Msgs = append(sp.Msgs, MsgSpec{Size: size, Seed: r.U64() >> 8, Plain: sp.Compress && sp.Proto != "http" && r.Chance(1, 4), Unknown: r.Chance(1, 6)})
 	}
 	if sp.Method == "unarysel" && sp.Msgs[0].Size == 0 {
 		sp.Msgs[0].Size = 1 // an empty protobuf body is "no body" for the mux (C03's subject)
@@ -150,6 +150,7 @@ func genMixedRequest(r *core.Rand, id int, limit int, allowFaults bool) ReqSpec 
 	sp.Handler = h
 	sp.ZeroReads = r.Chance(1, 5)
 	sp.EOFData = r.Chance(1, 3)
+	sp.Slash = sp.Proto == "http" && r.Chance(1, 8)
 	if r.Chance(1, 8) {
 		sp.Window = r.Pick(1, 64, 300)
 	}
@@ -185,6 +186,11 @@ func genC13(r *core.Rand, run int) *MuxScenario {
 		if sc.Knobs.MaxRecv < 4096 {
 			sc.Knobs.MaxRecv = 4096
 		}
+		if r.Chance(1, 2) {
+			// ... and half of the time TestService ALSO has a local handler:
+			// two handlers per method, the mux picks one per request
+			sc.Local = append(sc.Local, tsvc)
+		}
 	}
 	for i := 0; i < k; i++ {
 		sp := genMixedRequest(r, i+1, sc.Knobs.MaxRecv, faults)
@@ -200,6 +206,17 @@ func genC13(r *core.Rand, run int) *MuxScenario {
 			}
 		}
 		sc.Reqs = append(sc.Reqs, sp)
+	}
+	if r.Chance(1, 4) {
+		// a client that sends a frame flagged compressed with garbage in it:
+		// the call fails, the pools and everybody else must not notice
+		p := ReqSpec{ID: k + 1, Proto: r.PickS("grpc", "grpcweb"), Codec: "proto", Method: "bidi", Compress: true, Poison: true, Weight: 4,
+			Msgs:    []MsgSpec{{Size: r.Pick(0, 10, 100), Seed: r.U64() >> 8}},
+			Handler: HandlerSpec{FailCode: int(codes.Aborted), Steps: []HStep{{Op: "recvall"}, {Op: "sendall"}}, Resps: []MsgSpec{{Size: 5, Seed: 1}}}}
+		if proxied {
+			p.Method = "files" // a local service in the proxied mix
+		}
+		sc.Reqs = append(sc.Reqs, p)
 	}
 	fitLimits(sc)
 	return sc
@@ -247,6 +264,9 @@ func runC13(t *testing.T, rc *RunCtx) *RunResult {
 	}
 	for _, rs := range mr.reqs {
 		var v *Violation
+		if rs.spec.Poison {
+			continue // expected to fail; judged only by the global invariants (no panic, it returns)
+		}
 		if rs.spec.Backend != "" {
 			v = oracleProxy(mr, rs, &res.Counters)
 			if v != nil {
